@@ -8,6 +8,9 @@
        goroutine per relay on the caller's context, wg.Wait(); then submitConsensusRegistrations:
        one goroutine per secondary node on the caller's context, wg.Wait()),
      services/blockrelay/standard/validatorregistrations.go (ValidatorRegistrations: submitRelayRegistrations).
+   The signing requests of a round are made on the caller's context as well, one after the other,
+   before anything is submitted (time 0 below = the start of the submissions); with a living
+   context their latency changes nothing, and under a cancelled one they are not modelled.
    No call is ever given a context derived from another call's outcome: that is what this layer says,
    and what the theorems of section 8 of Properties/C11.v are about.
    Definitions only. *)
